@@ -136,6 +136,8 @@ def run(ctx, rep):
             ok = ok and set(tl_calls) == {tl_op} and set(br_calls) == {br_op}
         rep.check(ok, "R16.4", "Rectangle::" + nm, "Rectangle::%s must build its top-left corner with %s and its bottom-right corner with %s of the operands' corners; found %s" % (nm, tl_op, br_op, det or show(ro, maxd=5)),
                   at=f.span, fn=f.path)
+    from rules import c16_tables
+    c16_tables.run(prog, rep)
     from rules import axis
     axis.run_for(ctx.program("default"), rep, 'R16.6', ['core/src/primitives/rectangle', 'core/src/geometry', 'src/primitives/rectangle/mod.rs', 'src/geometry'], 'rectangle and geometry operations treat the axes independently')
 
